@@ -587,6 +587,59 @@ func runC18(c *Ctx) {
 				}
 				return out, sites > 0
 			}
+			// a count parameter of an unexported helper tested against 0 (`if n == 0 { return true }`: nothing to
+			// look for): every call site must hand it a count that is 0 only for an empty collection — len(x) or
+			// min(len(x), k); len(x) − k is 0 for a collection of k elements, which are then never looked at
+			if p, isP := bo.X.(*ssa.Parameter); isP && isConstInt(bo.Y, 0) && (bo.Op == token.EQL || bo.Op == token.LEQ) && p.Parent().Object() != nil && !p.Parent().Object().Exported() {
+				pi := -1
+				for i, q := range p.Parent().Params {
+					if q == p {
+						pi = i
+					}
+				}
+				constAnswer := false
+				if sb := iff.Block().Succs[0]; len(sb.Instrs) <= 4 {
+					if ret, ok := sb.Instrs[len(sb.Instrs)-1].(*ssa.Return); ok && len(ret.Results) == 1 {
+						if _, isK := ret.Results[0].(*ssa.Const); isK {
+							constAnswer = true
+						}
+						// the result spilled to a cell (functions with range-over-func loops)
+						if ld, ok := ret.Results[0].(*ssa.UnOp); ok && ld.Op == token.MUL {
+							for _, in2 := range sb.Instrs {
+								if st, ok := in2.(*ssa.Store); ok && st.Addr == ld.X {
+									if _, isK := st.Val.(*ssa.Const); isK {
+										constAnswer = true
+									}
+								}
+							}
+						}
+					}
+				}
+				if constAnswer && pi >= 0 {
+					for _, g := range P.PkgFuncs("mapset") {
+						g := g
+						allInstrs(g, func(in2 ssa.Instruction) {
+							call, ok := in2.(*ssa.Call)
+							if !ok || origin(staticCallee(&call.Call)) != origin(p.Parent()) || pi >= len(call.Call.Args) {
+								return
+							}
+							arg, ok := call.Call.Args[pi].(*ssa.BinOp)
+							if !ok {
+								return
+							}
+							if _, isLen := isBuiltinCall(arg.X, "len"); !isLen {
+								return
+							}
+							k, isK := constInt(arg.Y)
+							if !isK || !((arg.Op == token.SUB && k > 0) || (arg.Op == token.ADD && k < 0)) {
+								return
+							}
+							c.sawFn(fnName(g))
+							c.bad("R-CARD-SHORTCUT", fmt.Sprintf("%s:count handed to %s", fnName(g), p.Parent().Name()), call.Pos(), fmt.Sprintf("%s answers at once when its count is 0, and this call hands it %s: for a collection of exactly %d element(s) nothing is examined and the constant answer is given", p.Parent().Name(), ksym(arg), abs64(k)))
+						})
+					}
+				}
+			}
 			xsL, okx := lenOf(bo.X, 0)
 			xsR, oky := lenOf(bo.Y, 0)
 			if !okx || !oky {
@@ -758,4 +811,11 @@ func runC18(c *Ctx) {
 		}
 	}
 
+}
+
+func abs64(k int64) int64 {
+	if k < 0 {
+		return -k
+	}
+	return k
 }
